@@ -82,8 +82,7 @@ Proof. intros H. apply nth_error_app1. exact H. Qed.
 Section Proofs.
   Variable val : Type.
   Variable pyop : pyfun -> list val -> val + string.
-  Variable py_str : val -> string.
-  Variable is_none : val -> bool.
+  Variable py_repr : val -> string.
   Variable none_val : val.
   Variable hash : string -> string.
 
@@ -91,19 +90,19 @@ Section Proofs.
   Notation request := (request val).
   Notation operand := (operand val).
   Notation nrec := (nrec val).
-  Notation inject := (inject val pyop py_str is_none none_val hash).
-  Notation run_own := (run_own val pyop is_none none_val).
-  Notation pull := (pull val pyop is_none none_val).
-  Notation ensure := (ensure val pyop is_none none_val).
-  Notation inj_label := (inj_label val py_str hash).
-  Notation nominal := (nominal val py_str).
-  Notation pieces := (pieces val py_str).
-  Notation other_label := (other_label val py_str).
+  Notation inject := (inject val pyop py_repr none_val hash).
+  Notation run_own := (run_own val pyop none_val).
+  Notation pull := (pull val pyop none_val).
+  Notation ensure := (ensure val pyop none_val).
+  Notation inj_label := (inj_label val py_repr hash).
+  Notation nominal := (nominal val py_repr).
+  Notation pieces := (pieces val py_repr).
+  Notation other_label := (other_label val py_repr).
   Notation scoped := (scoped val).
   Notation find_label := (find_label val).
   Notation input_values := (input_values val none_val).
-  Notation node_apply := (node_apply val pyop is_none).
-  Notation slice_fun := (slice_fun val pyop is_none).
+  Notation node_apply := (node_apply val pyop).
+  Notation slice_fun := (slice_fun val pyop).
   Notation chan_value := (chan_value val).
   Notation set_node := (set_node val).
 
@@ -406,10 +405,12 @@ Section Proofs.
     assert (E : (if s_parent val st then find_label (inj_label st q) (s_nodes val st) 0 else None) = None).
     { destruct H as [->| ->]; [reflexivity|destruct (s_parent val st); reflexivity]. }
     rewrite E. fold (new_node st q). fold (grown st q).
-    destruct (run_own (grown st q) (List.length (s_nodes val st))) as [st2 res] eqn:R.
-    pose proof (run_own_skel _ _ _ _ R) as Sk.
-    destruct res; eexists; eexists; (split; [reflexivity|]); (split; [exact Sk|]); auto.
-    right. eexists. split; reflexivity.
+    destruct (holds_data val (grown st q) _) eqn:Hd.
+    - destruct (run_own (grown st q) (List.length (s_nodes val st))) as [st2 res] eqn:R.
+      pose proof (run_own_skel _ _ _ _ R) as Sk.
+      destruct res; eexists; eexists; (split; [reflexivity|]); (split; [exact Sk|]); auto.
+      right. eexists. split; reflexivity.
+    - eexists; eexists. split; [reflexivity|]. split; [apply same_skel_refl|auto].
   Qed.
 
   Lemma inject_cases st q st' n o :
@@ -508,7 +509,7 @@ Section Proofs.
   Qed.
 
   Lemma pull_upstream_skel st n r st1 ok :
-    pull_upstream val pyop is_none none_val st n r = (st1, ok) -> same_skel st st1.
+    pull_upstream val pyop none_val st n r = (st1, ok) -> same_skel st st1.
   Proof.
     unfold pull_upstream. intros H.
     destruct (wf_cache_hit val st _); [injection H as <- _; apply same_skel_refl|].
@@ -523,7 +524,7 @@ Section Proofs.
   Proof.
     unfold Inject.pull. intros H.
     destruct (nth_error (s_nodes val st) n) as [r|]; [|injection H as <- _; apply same_skel_refl].
-    destruct (pull_upstream val pyop is_none none_val st n r) as [st1 ok] eqn:F.
+    destruct (pull_upstream val pyop none_val st n r) as [st1 ok] eqn:F.
     apply pull_upstream_skel in F.
     destruct ok.
     - destruct (run_own st1 n) as [st2 res] eqn:R. apply run_own_skel in R.
@@ -539,7 +540,7 @@ Section Proofs.
   Proof.
     unfold Inject.pull. intros H.
     destruct (nth_error (s_nodes val st) n) as [r|]; [|discriminate].
-    destruct (pull_upstream val pyop is_none none_val st n r) as [st1 ok] eqn:F.
+    destruct (pull_upstream val pyop none_val st n r) as [st1 ok] eqn:F.
     apply pull_upstream_skel in F.
     destruct ok; [|discriminate].
     destruct (run_own st1 n) as [st2 res] eqn:R.
@@ -618,35 +619,32 @@ Section Proofs.
   Definition q_raws (q : request) : list val :=
     flat_map (fun o => match o with OC _ => [] | OR v => [v] end) (q_others val q).
 
+  (* repr of the raw operands is injective (CPython, on the operand pool) *)
+  Hypothesis repr_inj : forall v1 v2, py_repr v1 = py_repr v2 -> v1 = v2.
+
   Lemma others_inj st (l1 l2 : list operand) :
-    (forall v1 v2, In (OR v1) l1 -> In (OR v2) l2 -> py_str v1 = py_str v2 -> v1 = v2) ->
-    (forall v c, (In (OR v) l1 /\ In (OC c) l2) \/ (In (OR v) l2 /\ In (OC c) l1) -> py_str v <> scoped st c) ->
+    (forall v c, (In (OR v) l1 /\ In (OC c) l2) \/ (In (OR v) l2 /\ In (OC c) l1) -> py_repr v <> scoped st c) ->
     (forall c1 c2, In (OC c1) l1 -> In (OC c2) l2 -> scoped st c1 = scoped st c2 -> c1 = c2) ->
     map (other_label st) l1 = map (other_label st) l2 -> l1 = l2.
   Proof.
-    revert l2; induction l1 as [|a l1 IH]; intros [|b l2] G1 G2 G3 H; simpl in H; try discriminate; [reflexivity|].
+    revert l2; induction l1 as [|a l1 IH]; intros [|b l2] G2 G3 H; simpl in H; try discriminate; [reflexivity|].
     injection H as Hab Hr. f_equal.
     - destruct a as [c1|v1], b as [c2|v2]; simpl in Hab.
       + f_equal. apply G3; simpl; auto.
       + exfalso. apply (G2 v2 c1); [right; simpl; auto|congruence].
       + exfalso. apply (G2 v1 c2); [left; simpl; auto|exact Hab].
-      + f_equal. apply G1; simpl; auto.
+      + f_equal. apply repr_inj; exact Hab.
     - apply IH; auto.
-      + intros; apply G1; simpl; auto.
       + intros v c [[A B]|[A B]]; apply G2; simpl; auto.
       + intros; apply G3; simpl; auto.
   Qed.
 
-  (* the guards, over the requests R written in one parent, rendered in state st:
-       str_inj      raw operands are str-injective                      (else S17)
-       raw_vs_chan  no raw operand prints like a channel's scoped label
+  (* the guards, over the requests R written in one parent, rendered in state st (label hygiene):
+       raw_vs_chan  no raw operand's repr is a channel's scoped label
        scoped_inj   channels have distinct scoped labels
        frame_inj    gluing the pieces with "_" is unambiguous *)
-  Definition str_inj (R : list request) : Prop :=
-    forall q1 q2 v1 v2, In q1 R -> In q2 R -> In v1 (q_raws q1) -> In v2 (q_raws q2) ->
-      py_str v1 = py_str v2 -> v1 = v2.
   Definition raw_vs_chan st (R : list request) : Prop :=
-    forall q1 q2 v c, In q1 R -> In q2 R -> In v (q_raws q1) -> In c (q_chans q2) -> py_str v <> scoped st c.
+    forall q1 q2 v c, In q1 R -> In q2 R -> In v (q_raws q1) -> In c (q_chans q2) -> py_repr v <> scoped st c.
   Definition scoped_inj st (R : list request) : Prop :=
     forall q1 q2 c1 c2, In q1 R -> In q2 R -> In c1 (q_chans q1) -> In c2 (q_chans q2) ->
       scoped st c1 = scoped st c2 -> c1 = c2.
@@ -669,10 +667,10 @@ Section Proofs.
 
   Lemma label_eq_request_eq st R q1 q2 :
     In q1 R -> In q2 R -> flags_ok R ->
-    str_inj R -> raw_vs_chan st R -> scoped_inj st R -> frame_inj st R ->
+    raw_vs_chan st R -> scoped_inj st R -> frame_inj st R ->
     inj_label st q1 = inj_label st q2 -> q1 = q2.
   Proof.
-    intros I1 I2 Fl G1 G2 G3 G4 H.
+    intros I1 I2 Fl G2 G3 G4 H.
     destruct (label_inj st q1 q2 H) as (Hc & Hn).
     rewrite !nominal_join in Hn. apply (G4 q1 q2 I1 I2) in Hn.
     unfold Inject.pieces in Hn. injection Hn as Hs _ Ho.
@@ -680,7 +678,6 @@ Section Proofs.
     { apply (G3 q1 q2); auto; left; reflexivity. }
     assert (Eo : q_others val q1 = q_others val q2).
     { apply (others_inj st); auto.
-      - intros v1 v2 A B. apply (G1 q1 q2); auto using in_raws.
       - intros v c [[A B]|[A B]].
         + apply (G2 q1 q2); auto using in_raws, in_chans.
         + apply (G2 q2 q1); auto using in_raws, in_chans.
@@ -693,11 +690,11 @@ Section Proofs.
     hist st0 qs st -> s_parent val st0 = true ->
     In (q1, n) qs -> In (q2, n) qs ->
     flags_ok (map fst qs) ->
-    str_inj (map fst qs) -> raw_vs_chan st (map fst qs) -> scoped_inj st (map fst qs) ->
+    raw_vs_chan st (map fst qs) -> scoped_inj st (map fst qs) ->
     frame_inj st (map fst qs) ->
     q1 = q2.
   Proof.
-    intros H P I1 I2 Fl G1 G2 G3 G4.
+    intros H P I1 I2 Fl G2 G3 G4.
     destruct (hist_invariant _ _ _ H P _ _ I1) as (_ & F1).
     destruct (hist_invariant _ _ _ H P _ _ I2) as (_ & F2).
     destruct (find_label_some _ _ _ _ F1) as (_ & r1 & N1 & L1).
@@ -719,6 +716,11 @@ Section Proofs.
     apply append_inv_head in H. apply (append_inv_head "_") in H. apply append_inv_head in H.
     apply (append_inv_head "_") in H. exact H.
   Qed.
+
+  (* S17 repaired: on one receiver, one class, two raw operands get one label only if they are equal *)
+  Lemma one_raw_operand_inj st c self v1 v2 :
+    inj_label st (mkQ c self [OR v1] true) = inj_label st (mkQ c self [OR v2] true) -> v1 = v2.
+  Proof. intros H. apply same_receiver_label_inj in H. simpl in H. apply repr_inj. exact H. Qed.
 
   (* ---- who created a node, and what it computes ---------------------------------------------------------------- *)
   Definition q_inputs (q : request) : list operand :=
@@ -759,11 +761,11 @@ Section Proofs.
     hist st0 qs st -> s_parent val st0 = true -> s_nodes val st0 = [] ->
     In (q, n) qs ->
     flags_ok (map fst qs) ->
-    str_inj (map fst qs) -> raw_vs_chan st (map fst qs) -> scoped_inj st (map fst qs) ->
+    raw_vs_chan st (map fst qs) -> scoped_inj st (map fst qs) ->
     frame_inj st (map fst qs) ->
     exists r, nth_error (s_nodes val st) n = Some r /\ n_cls val r = q_cls val q /\ n_in val r = q_inputs q.
   Proof.
-    intros H P E0 I Fl G1 G2 G3 G4.
+    intros H P E0 I Fl G2 G3 G4.
     destruct (hist_invariant _ _ _ H P _ _ I) as (_ & F).
     pose proof (find_label_lt _ _ _ _ F) as Lt.
     destruct (hist_created _ _ _ H n) as (q' & I' & _ & R); [rewrite E0; simpl; lia|].
@@ -807,59 +809,62 @@ Section Proofs.
     exists st1, r, vals. auto.
   Qed.
 
-  (* ---- the Slice node ------------------------------------------------------------------------------------------- *)
-  (* where the library's Slice function agrees with python's slice(...) *)
-  Lemma slice_fun_full start stop step :
-    is_none start = false -> is_none stop = false ->
+  (* ---- the Slice node: python's slice(start, stop, step) ------------------------------------------------------- *)
+  Lemma slice_fun_spec start stop step :
     slice_fun [start; stop; step] = pyop PSliceCtor [start; stop; step].
-  Proof. intros A B. unfold Inject.slice_fun. rewrite A, B. reflexivity. Qed.
+  Proof. reflexivity. Qed.
 
-  Lemma slice_fun_stop_only start stop step :
-    is_none start = true -> is_none stop = false -> is_none step = true ->
-    slice_fun [start; stop; step] = pyop PSliceCtor [stop].
-  Proof. intros A B C. unfold Inject.slice_fun. rewrite A, B, C. reflexivity. Qed.
-
-  (* ... and where it refuses what python accepts: x[a:], x[::c], x[:b:c] *)
-  Lemma slice_fun_refuses start stop step :
-    (is_none start = false /\ is_none stop = true) \/
-    (is_none start = true /\ is_none stop = true) \/
-    (is_none start = true /\ is_none stop = false /\ is_none step = false) ->
-    slice_fun [start; stop; step] = inr "ValueError".
+  (* a node is run at creation only when every connected operand already holds data *)
+  Lemma inject_waits st q st' n o :
+    inject st q = (st', n, o) ->
+    (s_parent val st = false \/ find_label (inj_label st q) (s_nodes val st) 0 = None) ->
+    holds_data val (grown st q) (q_inputs q) = false ->
+    st' = grown st q /\ o = Done.
   Proof.
-    unfold Inject.slice_fun. intros [(A & B)|[(A & B)|(A & B & C)]]; rewrite A, B; try rewrite C; reflexivity.
+    intros H C Hd. unfold Inject.inject in H.
+    assert (E : (if s_parent val st then find_label (inj_label st q) (s_nodes val st) 0 else None) = None).
+    { destruct C as [->| ->]; [reflexivity|destruct (s_parent val st); reflexivity]. }
+    rewrite E in H. fold (new_node st q) in H. fold (grown st q) in H.
+    unfold q_inputs in Hd. rewrite Hd in H. injection H as <- _ <-. auto.
   Qed.
 End Proofs.
 
-(* ---- witnesses on the concrete instance (values = tagged text, hash = identity) -------------------------------- *)
-Definition w_strs : list (string * string) :=
-  [("int:1", "1"); ("str:'1'", "1"); ("str:'y__user_input'", "y__user_input");
-   ("str:'1_2'", "1_2"); ("str:'2_None'", "2_None"); ("NoneType:None", "None"); ("int:4", "4")].
+
+(* ---- witnesses on the concrete instance (values = tagged text, hash = identity) --------------------------------
+   Users: x=1, y=2, l=[1,2,3,4], i=1 (not yet run), z=(p=3,q=0) (not yet run), and four UserInput nodes
+   with identifier labels chosen so that "_" framing is ambiguous: a=1, d=10, c__user_input_Add_d=100,
+   a__user_input_Add_c=1000. *)
+Definition w_reprs : list (string * string) :=
+  [("int:1", "1"); ("str:'1'", "'1'"); ("int:4", "4"); ("NoneType:None", "None")].
 Definition w_rows : list pyrow :=
   [("add", ["int:1"; "int:1"], false, "int:2");
    ("add", ["int:1"; "str:'1'"], true, "TypeError");
    ("add", ["int:1"; "int:2"], false, "int:3");
-   ("neg", ["int:1"], false, "int:-1");
+   ("add", ["int:1"; "int:100"], false, "int:101");
+   ("add", ["int:1000"; "int:10"], false, "int:1010");
+   ("mul", ["int:2"; "int:4"], false, "int:8");
    ("neg", ["int:3"], false, "int:-3"); ("neg", ["int:0"], false, "int:0");
    ("pos", ["int:-3"], false, "int:-3");
-   ("mul", ["int:2"; "int:4"], false, "int:8");
-   ("slice", ["str:'1_2'"], false, "slice:slice(None, '1_2', None)");
-   ("slice", ["int:4"], false, "slice:slice(None, 4, None)");
-   ("getitem", ["list:[1, 2, 3, 4]"; "slice:slice(None, 4, None)"], false, "list:[1, 2, 3, 4]")].
-Definition w_users (i_ran : bool) : list (urec tval) :=
+   ("slice", ["int:1"; "int:4"; "NoneType:None"], false, "slice:slice(1, 4, None)");
+   ("getitem", ["list:[1, 2, 3, 4]"; "slice:slice(1, 4, None)"], false, "list:[2, 3, 4]")].
+Definition w_users : list (urec tval) :=
   [mkU "x" [("user_input", "int:1")] true; mkU "y" [("user_input", "int:2")] true;
-   mkU "l" [("user_input", "list:[1, 2, 3, 4]")] true; mkU "i" [("user_input", "int:1")] i_ran;
-   mkU "z" [("p", "int:3"); ("q", "int:0")] false].
-Definition w_st0 : state tval := mkS tval true (w_users false) [] None.
+   mkU "l" [("user_input", "list:[1, 2, 3, 4]")] true; mkU "i" [("user_input", "int:1")] false;
+   mkU "z" [("p", "int:3"); ("q", "int:0")] false;
+   mkU "a" [("user_input", "int:1")] true; mkU "d" [("user_input", "int:10")] true;
+   mkU "c__user_input_Add_d" [("user_input", "int:100")] true;
+   mkU "a__user_input_Add_c" [("user_input", "int:1000")] true].
+Definition w_st0 : state tval := mkS tval true w_users [] None.
 Definition w_pyop := tbl_pyop w_rows.
-Definition w_str := tbl_str w_strs.
-Definition w_inject := inject tval w_pyop w_str t_is_none "NoneType:None" (fun s => s).
-Definition w_pull := pull tval w_pyop t_is_none "NoneType:None".
+Definition w_repr := tbl_str w_reprs.
+Definition w_inject := inject tval w_pyop w_repr "NoneType:None" (fun s => s).
+Definition w_pull := pull tval w_pyop "NoneType:None".
 Definition w_x : chan := CU 0 0.
 Definition w_y : chan := CU 1 0.
 Definition w_l : chan := CU 2 0.
 Definition w_i : chan := CU 3 0.
 
-Notation w_hist := (hist tval w_pyop w_str t_is_none "NoneType:None" (fun s => s)).
+Notation w_hist := (hist tval w_pyop w_repr "NoneType:None" (fun s => s)).
 
 Ltac qok := split; [simpl; auto; try lia | repeat constructor; simpl; auto; try lia].
 
@@ -872,14 +877,15 @@ Proof.
   eapply h_inj; [eapply h_inj; [apply h_nil|exact A|exact B]|exact C|exact D].
 Qed.
 
-(* S17: x + 1 and x + '1' are different expressions, get ONE node, and the mix-up changes the value *)
-Lemma w_refuted_str : exists qs st q1 q2 n,
+(* "_" both separates the pieces and occurs inside labels: with nodes a, d, c__user_input_Add_d and
+   a__user_input_Add_c (all identifiers, all distinct), a + c__user_input_Add_d and a__user_input_Add_c + d
+   get ONE node, and the mix-up changes the value: python says 1000 + 10 = 1010, the shared node 101. *)
+Lemma w_refuted_framing : exists qs st q1 q2 n,
   w_hist w_st0 qs st /\ In (q1, n) qs /\ In (q2, n) qs /\ q1 <> q2 /\
-  w_str "int:1" = w_str "str:'1'" /\
-  w_pyop PAdd ["int:1"; "str:'1'"] = inr "TypeError" /\
-  snd (w_pull st n) = PVal "int:2".
+  w_pyop PAdd ["int:1000"; "int:10"] = inl "int:1010" /\
+  snd (w_pull st n) = PVal "int:101".
 Proof.
-  pose (q1 := @mkQ tval CAdd w_x [OR "int:1"] true). pose (q2 := @mkQ tval CAdd w_x [OR "str:'1'"] true).
+  pose (q1 := @mkQ tval CAdd (CU 5 0) [OC (CU 7 0)] true). pose (q2 := @mkQ tval CAdd (CU 8 0) [OC (CU 6 0)] true).
   exists [(q1, 0); (q2, 0)], (fst (fst (w_inject w_st0 q1))), q1, q2, 0.
   split.
   { eapply w_hist2 with (o1 := Done) (o2 := Done); [qok|vm_compute; reflexivity|qok|vm_compute; reflexivity]. }
@@ -887,68 +893,61 @@ Proof.
   intros H. discriminate H.
 Qed.
 
-Lemma w_refuted_channel_vs_string : exists qs st q1 q2 n,
-  w_hist w_st0 qs st /\ In (q1, n) qs /\ In (q2, n) qs /\ q1 <> q2.
-Proof.
-  pose (q1 := @mkQ tval CAdd w_x [OC w_y] true). pose (q2 := @mkQ tval CAdd w_x [OR "str:'y__user_input'"] true).
-  exists [(q1, 0); (q2, 0)], (fst (fst (w_inject w_st0 q1))), q1, q2, 0.
-  split.
-  { eapply w_hist2 with (o1 := Done) (o2 := Done); [qok|vm_compute; reflexivity|qok|vm_compute; reflexivity]. }
-  repeat split; try (simpl; tauto).
-  intros H. discriminate H.
-Qed.
+(* regressions of the repaired defects, as facts of the model:
+   - x + 1 and x + '1' now get two nodes (and x + '1' raises python's TypeError when written);
+   - l[i:4] written while i holds no data does NOT run (no default None stands in for i); once pulled
+     it is python's l[1:4] = [2,3,4]. *)
+Lemma w_regressions :
+  (exists st1 st2, w_inject w_st0 (@mkQ tval CAdd w_x [OR "int:1"] true) = (st1, 0, Done) /\
+                   w_inject st1 (@mkQ tval CAdd w_x [OR "str:'1'"] true) = (st2, 1, Raised "TypeError")) /\
+  (exists st1 st2 st3,
+     w_inject w_st0 (@mkQ tval CSlice w_l [OC w_i; OR "int:4"; OR "NoneType:None"] false) = (st1, 0, Done) /\
+     w_inject st1 (@mkQ tval CGetItem w_l [OC (CN 0)] true) = (st2, 1, Done) /\
+     chan_value tval st2 (CN 0) = None /\ chan_value tval st2 (CN 1) = None /\
+     w_pull st2 1 = (st3, PVal "list:[2, 3, 4]")).
+Proof. split; do 2 eexists; try eexists; vm_compute; repeat split; reflexivity. Qed.
 
-Lemma w_refuted_framing : exists qs st q1 q2 n,
-  w_hist w_st0 qs st /\ In (q1, n) qs /\ In (q2, n) qs /\ q1 <> q2.
-Proof.
-  pose (q1 := @mkQ tval CSlice w_l [OC w_i; OR "str:'1_2'"; OR "NoneType:None"] false).
-  pose (q2 := @mkQ tval CSlice w_l [OC w_i; OR "int:1"; OR "str:'2_None'"] false).
-  exists [(q1, 0); (q2, 0)], (fst (fst (w_inject w_st0 q1))), q1, q2, 0.
-  split.
-  { eapply w_hist2 with (o1 := Done) (o2 := Done); [qok|vm_compute; reflexivity|qok|vm_compute; reflexivity]. }
-  repeat split; try (simpl; tauto).
-  intros H. discriminate H.
-Qed.
+(* model fact outside C18's clauses (composite cache, C05): after one successful pull in a Workflow, with no
+   child added since and the same value-holding children in the data tree, the next parent.run() is a cache
+   hit and runs nothing upstream; +(-z.p), written before z had run, cannot be pulled *)
+Lemma w_pull_cache : exists st1 a o1 st2 b o2 st3 c o3 st4 v st5,
+  w_inject w_st0 (@mkQ tval CNegative (CU 4 0) [] true) = (st1, a, o1) /\
+  w_inject st1 (@mkQ tval CPositive (CN a) [] true) = (st2, b, o2) /\
+  w_inject st2 (@mkQ tval CNegative (CU 4 1) [] true) = (st3, c, o3) /\
+  w_pull st3 c = (st4, PVal v) /\ w_pull st4 b = (st5, PUp).
+Proof. do 12 eexists. vm_compute. repeat split; reflexivity. Qed.
 
-Lemma w_slice_default : exists st1 ns o1 st2 ng o2,
-  w_inject w_st0 (@mkQ tval CSlice w_l [OC w_i; OR "int:4"; OR "NoneType:None"] false) = (st1, ns, o1) /\
-  w_inject st1 (@mkQ tval CGetItem w_l [OC (CN ns)] true) = (st2, ng, o2) /\
-  chan_value tval st2 w_i = None /\
-  chan_value tval st2 (CN ng) = Some "list:[1, 2, 3, 4]".
-Proof. do 6 eexists. vm_compute. repeat split; reflexivity. Qed.
+(* non-vacuity: with repr = the (injective) tagged text itself, a history with a raw operand, a channel
+   operand, a nested expression and a repetition meets every hypothesis of the guarded theorems *)
+Definition e_inject := inject tval w_pyop (fun s => s) "NoneType:None" (fun s => s).
+Notation e_hist := (hist tval w_pyop (fun s : string => s) "NoneType:None" (fun s => s)).
 
-(* non-vacuity: a history with a raw operand, a channel operand, a nested expression and a repetition
-   meets every hypothesis of the guarded theorems *)
 Lemma w_hyps_hold :
   let q1 := @mkQ tval CAdd w_x [OR "int:1"] true in
   let q2 := @mkQ tval CAdd w_x [OC w_y] true in
   let q3 := @mkQ tval CMultiply (CN 0) [OR "int:4"] true in
   exists st, let qs := [(q1, 0); (q2, 1); (q3, 2); (q1, 0)] in
-    w_hist w_st0 qs st /\ s_parent tval w_st0 = true /\ s_nodes tval w_st0 = [] /\
+    e_hist w_st0 qs st /\ s_parent tval w_st0 = true /\ s_nodes tval w_st0 = [] /\
     (forall a b : string, (fun s : string => s) a = (fun s => s) b -> a = b) /\
     flags_ok tval (map fst qs) /\
-    str_inj tval w_str (map fst qs) /\ raw_vs_chan tval w_str st (map fst qs) /\
-    scoped_inj tval st (map fst qs) /\ frame_inj tval w_str st (map fst qs) /\
+    raw_vs_chan tval (fun s => s) st (map fst qs) /\
+    scoped_inj tval st (map fst qs) /\ frame_inj tval (fun s => s) st (map fst qs) /\
     List.length (s_nodes tval st) = 3 /\ chan_value tval st (CN 2) = Some "int:8".
 Proof.
   intros q1 q2 q3.
-  pose (s1 := fst (fst (w_inject w_st0 q1))). pose (s2 := fst (fst (w_inject s1 q2))).
-  pose (s3 := fst (fst (w_inject s2 q3))).
+  pose (s1 := fst (fst (e_inject w_st0 q1))). pose (s2 := fst (fst (e_inject s1 q2))).
+  pose (s3 := fst (fst (e_inject s2 q3))).
   exists s3. cbv zeta.
   split.
-  { change [(q1, 0); (q2, 1); (q3, 2); (q1, 0)] with (([(q1, 0); (q2, 1)] ++ [(q3, 2)]) ++ [(q1, 0)]).
-    eapply h_inj with (o := Done);
-      [eapply h_inj with (o := Done); [eapply w_hist2 with (o1 := Done) (o2 := Done)| |]| |];
+  { change [(q1, 0); (q2, 1); (q3, 2); (q1, 0)] with (((([] ++ [(q1, 0)]) ++ [(q2, 1)]) ++ [(q3, 2)]) ++ [(q1, 0)]).
+    eapply h_inj with (o := Done); [eapply h_inj with (o := Done);
+      [eapply h_inj with (o := Done); [eapply h_inj with (o := Done); [apply h_nil| |]| |]| |]| |];
       try (vm_compute; reflexivity); try (qok; fail).
     all: split; [simpl; vm_compute; auto; try lia | repeat constructor; simpl; auto; try lia]. }
   split; [reflexivity|]. split; [reflexivity|]. split; [auto|].
   assert (Hin : forall q, In q (map fst [(q1, 0); (q2, 1); (q3, 2); (q1, 0)]) -> q = q1 \/ q = q2 \/ q = q3).
   { simpl. intuition. }
   split; [intros q Hq; destruct (Hin q Hq) as [->|[->| ->]]; reflexivity|].
-  split.
-  { intros a b v1 v2 Ha Hb H1 H2 Hs.
-    destruct (Hin a Ha) as [->|[->| ->]], (Hin b Hb) as [->|[->| ->]]; simpl in H1, H2;
-      intuition; subst; try reflexivity; vm_compute in Hs; discriminate Hs. }
   split.
   { intros a b v c Ha Hb H1 H2.
     destruct (Hin a Ha) as [->|[->| ->]], (Hin b Hb) as [->|[->| ->]]; simpl in H1, H2;
@@ -962,13 +961,3 @@ Proof.
   destruct (Hin a Ha) as [->|[->| ->]], (Hin b Hb) as [->|[->| ->]]; vm_compute;
     intros H; try reflexivity; discriminate H.
 Qed.
-
-(* the parent's own cache short-circuits the second pull: +(-z.p), written before z had run, never
-   gets its input *)
-Lemma w_pull_cache : exists st1 a o1 st2 b o2 st3 c o3 st4 v st5,
-  w_inject w_st0 (@mkQ tval CNegative (CU 4 0) [] true) = (st1, a, o1) /\
-  w_inject st1 (@mkQ tval CPositive (CN a) [] true) = (st2, b, o2) /\
-  w_inject st2 (@mkQ tval CNegative (CU 4 1) [] true) = (st3, c, o3) /\
-  w_pull st3 c = (st4, PVal v) /\ w_pull st4 b = (st5, PUp) /\
-  w_pyop PNeg ["int:3"] = inl "int:-3" /\ w_pyop PPos ["int:-3"] = inl "int:-3".
-Proof. do 12 eexists. vm_compute. repeat split; reflexivity. Qed.
